@@ -2,7 +2,7 @@
    The user state is modelled by the state's own log of hook calls.
    bal st : #with_constraint = #take_constraint + (number of constraints in the store). *)
 From Coq Require Import List ZArith Bool Arith.
-From PV Require Import Model.Term Model.Subst Model.Unify Model.FD Model.State Proofs.UnifyProofs Proofs.DiseqProofs Proofs.HookProofs.
+From PV Require Import Model.Term Model.Subst Model.Unify Model.FD Model.State Proofs.UnifyProofs Proofs.DiseqProofs Proofs.HookProofs Model.Engine Proofs.StreamInv Proofs.HookStream.
 Import ListNotations.
 
 Theorem C22_initial : forall n, bal (empty_state n).
@@ -38,6 +38,18 @@ Theorem C22_extension : forall st u v st',
                       st_ulog st' = UExt ext :: rest.
 Proof. exact state_unify_ext. Qed.
 
+(* ... and therefore in every state the search ever holds: every state inside every stream started
+   from a balanced state (pending pauses, delayed tails, heads) is balanced, for all goals,
+   definitions and fuel, and so is every answer Solver::next delivers, however many steps it takes *)
+Theorem C22_every_stream_state : forall defs n g st, bal st -> allS bal (start defs n g st).
+Proof. exact start_bal. Qed.
+Theorem C22_every_answer : forall defs k used s a rest used',
+  allS bal s -> next defs k used s = NAnswer a rest used' -> bal a /\ allS bal rest.
+Proof. exact next_bal. Qed.
+Theorem C22_query : forall defs n g nv k a rest used',
+  next defs k 0 (start defs n g (empty_state nv)) = NAnswer a rest used' -> bal a.
+Proof. intros defs n g nv k a rest used' H. eapply next_bal; [|exact H]. apply start_bal, bal_empty. Qed.
+
 Check C22_unify : forall st u v, bal st -> sres_bal (state_unify st u v).
 Print Assumptions C22_initial.
 Print Assumptions C22_unify.
@@ -49,3 +61,6 @@ Print Assumptions C22_with_constraint.
 Print Assumptions C22_take_constraint.
 Print Assumptions C22_dropped_counted.
 Print Assumptions C22_extension.
+Print Assumptions C22_every_stream_state.
+Print Assumptions C22_every_answer.
+Print Assumptions C22_query.
